@@ -6,6 +6,7 @@ CONSTANTS
   StopOnDecodeError = TRUE
   CheckedDeadline = TRUE
   CheckedExtent = TRUE
+  SatWindow = TRUE
   WaitHasDeadline = FALSE
 INVARIANTS Total NoDevOpen WalkBounded DsoFailsIsTheSteps HardErrorIsAppMem
 PROPERTY Terminates
